@@ -230,7 +230,11 @@ func (x *Exec) lookupIdent(env *Env, c *Clause, name string) (SymVal, types.Type
 					}
 				}
 			}
-			if a := x.findLocal(name); a != nil {
+			a := x.findLocal(name)
+			if a == nil {
+				a = x.baselineLocal(name)
+			}
+			if a != nil {
 				t := derefType(a.Type())
 				if a.Heap {
 					if pv, ok := fr.vals[a]; ok {
@@ -523,7 +527,7 @@ func (x *Exec) evalSel(env *Env, c *Clause, e *Expr) (SymVal, types.Type) {
 	if b := e.Args[0]; b.Kind == "ident" {
 		_, bound := env.binds[b.Op]
 		_, ghost := env.st.ghost[b.Op]
-		if !bound && !ghost && x.findLocal(b.Op) == nil {
+		if !bound && !ghost && x.findLocal(b.Op) == nil && (x.fn == nil || x.baselineLocal(b.Op) == nil) {
 			if pk := x.P.Pkgs[env.pkg]; pk == nil || pk.Types.Scope().Lookup(b.Op) == nil {
 				if tp := x.P.FindPackage(b.Op); tp != nil {
 					if obj := tp.Scope().Lookup(e.Op); obj != nil {
@@ -879,6 +883,9 @@ func (x *Exec) evalCall(env *Env, c *Clause, e *Expr) (SymVal, types.Type) {
 			x.specFail(c, "addr needs a variable name")
 		}
 		a := x.findLocal(e.Args[0].Op)
+		if a == nil {
+			a = x.baselineLocal(e.Args[0].Op)
+		}
 		fr := x.rootFrame(env.st)
 		if a == nil || !a.Heap || fr == nil {
 			x.specFail(c, "addr: %s is not an address-taken local", e.Args[0].Op)
